@@ -1,0 +1,105 @@
+//go:build verif
+
+package mq
+
+// Hooks for the verification machinery in /verif. This file only
+// exists for the compiler when the build tag "verif" is set; it adds
+// exported wrappers around unexported codec parts and the hook
+// variables called by statement points which the /verif instrumenter
+// inserts into a build overlay (never into this repository).
+
+import (
+	"cmp"
+	"io"
+	"sort"
+)
+
+// VerifVbintFill writes v as a variable byte integer into buf at
+// offset 0 and returns the width, exactly as the encoders do.
+func VerifVbintFill(v uint, buf []byte) int { return vbint(v).fill(buf, 0) }
+
+// VerifVbintWidth returns the width the encoders reserve for v.
+func VerifVbintWidth(v uint) int { return vbint(v).width() }
+
+// VerifVbintGet decodes a variable byte integer from the start of
+// data the way every packet decoder does, i.e. through buffer.get.
+// It returns the value, the number of bytes the cursor advanced and
+// the error recorded in the buffer.
+func VerifVbintGet(data []byte) (uint, int, error) {
+	b := &buffer{data: data}
+	var v vbint
+	b.get(&v)
+	return uint(v), b.i, b.err
+}
+
+// VerifVbintReadFrom decodes a variable byte integer from a stream
+// the way ReadPacket reads the remaining length.
+func VerifVbintReadFrom(r io.Reader) (uint, int64, error) {
+	var v vbint
+	n, err := v.ReadFrom(r)
+	return uint(v), n, err
+}
+
+// VerifBudgetExceeded is the panic value used when the step budget is
+// exhausted.
+type VerifBudgetExceeded struct{ Steps int64 }
+
+var (
+	// VerifSteps counts statement points executed (instrumented builds).
+	VerifSteps int64
+	// VerifBudget, when > 0, bounds VerifSteps.
+	VerifBudget int64
+	// VerifStepHook, when set, is called at every statement point.
+	VerifStepHook func(id int)
+	// VerifOrderHook, when set, returns a permutation of 0..n-1 used
+	// for the range over a map at the given site.
+	VerifOrderHook func(site, n int) []int
+	// VerifGlobalsFn returns the addresses of all package level
+	// variables; set by the generated overlay file.
+	VerifGlobalsFn func() []any
+	// VerifStepPos maps statement point ids to file:line; set by the
+	// generated overlay file.
+	VerifStepPos []string
+	// VerifInstrumented is true in builds whose overlay inserted
+	// statement points.
+	VerifInstrumented bool
+)
+
+func verifStep(id int) {
+	VerifSteps++
+	if VerifBudget > 0 && VerifSteps > VerifBudget {
+		panic(VerifBudgetExceeded{VerifSteps})
+	}
+	if VerifStepHook != nil {
+		VerifStepHook(id)
+	}
+}
+
+// verifPerm returns the permutation to use for a map range with n keys.
+func verifPerm(site, n int) []int {
+	if VerifOrderHook == nil {
+		return nil
+	}
+	return VerifOrderHook(site, n)
+}
+
+// verifOrder returns the keys of m in the order a range over the map
+// at the given site shall visit them: sorted order, permuted by the
+// explorer's choice. Go leaves map iteration order unspecified, so
+// every permutation is a legal behaviour.
+func verifOrder[K cmp.Ordered, V any](site int, m map[K]V) []K {
+	keys := make([]K, 0, len(m))
+	for k := range m {
+		keys = append(keys, k)
+	}
+	sort.Slice(keys, func(i, j int) bool { return keys[i] < keys[j] })
+	perm := verifPerm(site, len(keys))
+	if perm == nil {
+		return keys
+	}
+	out := make([]K, len(keys))
+	for i, j := range perm {
+		out[i] = keys[j]
+	}
+	return out
+}
